@@ -14,7 +14,7 @@ import (
 func init() {
 	register(&Pack{ID: "C10", Run: runC10, Meta: core.Meta{
 		Level:       "other",
-		Explanation: "Accumulator provenance and counting rules on fork.Fold (and pipe.Fold as the reference sibling). Worker: its accumulator cell is initialised by its own call of m.Empty(), becomes Combine(acc, x) exactly once per received element with the accumulator first, and on every exit the accumulator is sent exactly once on the partials channel before wg.Done. Collector: runs after wg.Wait, its accumulator starts from m.Empty() (every value reaching the first argument of Combine is Empty() or a previous Combine result), it combines exactly one received partial per iteration of a counted loop whose trip count is the worker-count parameter - the same value as wg.Add's argument, the spawn loop's trip count and the partials channel's capacity -, then sends the accumulator exactly once on the result channel (capacity >= 1) and closes it. With associativity/commutativity of the user's monoid (a premise) the combination of par partial folds from Empty() equals the sequential left fold; that step is a paper argument.",
+		Explanation: "Accumulator provenance and counting rules on fork.Fold (and pipe.Fold as the reference sibling). Worker: its accumulator cell is initialised by its own call of m.Empty(), becomes Combine(acc, x) exactly once per received element with the accumulator first, and on every exit the accumulator is sent exactly once on the partials channel before wg.Done. Collector: runs after wg.Wait, its accumulator starts from m.Empty() (every value reaching the first argument of Combine is Empty() or a previous Combine result), it combines exactly one received partial per iteration of a counted loop whose trip count is the worker-count parameter - the same value as wg.Add's argument, the spawn loop's trip count and the partials channel's capacity -, then sends the accumulator exactly once on the result channel (capacity >= 1) and closes it. With associativity/commutativity of the user's monoid (a premise) the combination of par partial folds from Empty() equals the sequential left fold; that step is a paper argument. The monoid handed to Fold is covered by the monoid rules of C17 (From/FromOp build {combine, empty}; Empty returns the stored element; Combine resolves to the stored semigroup).",
 		RuleText:    "one obligation per rule on fork.Fold's worker / collector and on pipe.Fold",
 		Assumptions: []string{"the monoid laws of the user's instance (associative, commutative, Empty is the identity)"},
 		TrustedBase: []string{"go/ssa", "path engine P", "counted-loop recognition D-iv"},
